@@ -1962,6 +1962,13 @@ def str_pair(r):
 
 
 def const_expr(r, depth, strings=False, vars=()):
+    if depth > 0 and r.random() < 0.1:
+        # two values that are neighbours across types, compared (first, so
+        # that no other form crowds it out)
+        a, b = r.choice(NEAR)
+        if r.random() < 0.5:
+            a, b = b, a
+        return ['bin', r.choice(CMP), ['lit', a[0], a[1]], ['lit', b[0], b[1]]]
     if vars and strings and depth > 0 and r.random() < 0.1:
         # variable AND/OR a comparison of two string constants: not constant
         # as a whole, so only the peephole pass can fold the comparison
